@@ -83,6 +83,17 @@ def run(ctx):
                 nbad += 1
                 if nbad <= 3: ctx.report('depends-on-rounding-direction', '%s gives %s under %s and %s under the default rounding direction' % (lines[i][:80], o.strip()[:40], mname, impl[i].strip()[:40]),
                                          {'case': lines[i], 'fenv': mname, 'impl_default': impl[i][:200], 'impl_mode': o[:200]})
+    # ... and with sticky per-thread state left behind by unrelated code: a stale errno (EDOM, ERANGE, EINTR, ENOMEM) and all floating-point exception
+    # flags raised, re-established before every call (the functions are pure: their value depends on the arguments only)
+    for (eno, fl), mname in (((33, 0), 'errno=EDOM'), ((34, 0), 'errno=ERANGE'), ((4, 1), 'errno=EINTR + all FP exception flags raised'), ((12, 1), 'errno=ENOMEM + all FP exception flags raised')):
+        mo_ = vlib.run_lines(exe, ['ambient %d %d' % (eno, fl)] + [lines[i] for i in sub] + ['ambient 0 0'])[1:-1]
+        nbad = 0
+        for i, o in zip(sub, mo_):
+            ctx.count((mname, lines[i]))
+            if o.strip() != impl[i].strip():
+                nbad += 1
+                if nbad <= 3: ctx.report('depends-on-stale-thread-state', '%s gives %s with %s before the call and %s in a fresh thread state' % (lines[i][:80], o.strip()[:40], mname, impl[i].strip()[:40]),
+                                         {'case': lines[i], 'ambient': [eno, fl], 'impl_default': impl[i][:200], 'impl_mode': o[:200]})
     modelable = [i for i, c in enumerate(cases) if c[0] in ('msf', 'aph', 'mst', 'dtot', 't32tod')]
     mout = vlib.run_model([lines[i] for i in modelable])
     found = False
@@ -204,6 +215,11 @@ def oracle_case(c, o):
 def replay(ctx, data):
     bdir = vlib.build_lib('optim')
     exe = vlib.build_harness('drv.cpp', bdir, 'spqlios-fma', 'optim')
+    if 'case' in data and ('ambient' in data or 'fenv' in data):
+        pre = 'ambient %d %d' % tuple(data['ambient']) if 'ambient' in data else 'fenv %d' % {'FE_UPWARD': 1, 'FE_DOWNWARD': 2, 'FE_TOWARDZERO': 3}[data['fenv']]
+        o0 = vlib.run_lines(exe, [data['case']])[0]; o1 = vlib.run_lines(exe, [pre, data['case']])[1]
+        print('case:', data['case'], '\nfresh thread state:', o0, '\nafter "%s":' % pre, o1, '\nrecorded:', data.get('impl_mode'))
+        return 1 if o0.strip() != o1.strip() else 0
     if 'case' in data:
         o = vlib.run_lines(exe, [data['case']])[0]
         print('case:', data['case'], '\nimplementation now:', o, '\nrecorded:', data.get('impl'))
